@@ -191,23 +191,21 @@ structure Rel (c : Codec) (sp : SpecSt) (n : Node) (clock : Int) : Prop where
   curLe : ∀ g ∈ sp.cur, g.e.ts ≤ n.snd.lastTs
   named : ∀ f ∈ sp.files, ∀ g ∈ f.es, g.e.ts < f.name * usec
   pos : sp.pos = n.pos
-  conn : sp.conn = [(n.peers 0).connected, (n.peers 1).connected, (n.peers 2).connected]
-  durs : sp.durs = [(n.peers 0).dur, (n.peers 1).dur, (n.peers 2).dur]
+  conn : sp.conn = [(n.peers 0).connected, (n.peers 1).connected, (n.peers 2).connected, (n.peers 3).connected, (n.peers 4).connected, (n.peers 5).connected]
+  durs : sp.durs = [(n.peers 0).dur, (n.peers 1).dur, (n.peers 2).dur, (n.peers 3).dur, (n.peers 4).dur, (n.peers 5).dur]
   dropped : sp.dropped = false
-  rel0 : (n.peers 0).related = true
-  rel1 : (n.peers 1).related = true
-  rel2 : (n.peers 2).related = false
+  rel : ∀ p, (n.peers p).related = related p
 
 theorem ghostOrder_eq (c : Codec) (sp : SpecSt) (n : Node) (t : Int) (h : Rel c sp n t) : ghostOrder sp = ghostAll sp := by
   simp [ghostOrder, ghostAll, sortGF_sorted _ h.sorted]
 
-theorem lpos_pos (n : Node) (p : Nat) (hp : p < 3) : lpos n.pos p = (n.peers p).lpos := by
-  have : p = 0 ∨ p = 1 ∨ p = 2 := by omega
-  rcases this with rfl | rfl | rfl <;> rfl
+theorem lpos_pos (n : Node) (p : Nat) (hp : p < 6) : lpos n.pos p = (n.peers p).lpos := by
+  have : p = 0 ∨ p = 1 ∨ p = 2 ∨ p = 3 ∨ p = 4 ∨ p = 5 := by omega
+  rcases this with rfl | rfl | rfl | rfl | rfl | rfl <;> rfl
 
-theorem rpos_pos (n : Node) (p : Nat) (hp : p < 3) : rpos n.pos p = (n.peers p).rpos := by
-  have : p = 0 ∨ p = 1 ∨ p = 2 := by omega
-  rcases this with rfl | rfl | rfl <;> rfl
+theorem rpos_pos (n : Node) (p : Nat) (hp : p < 6) : rpos n.pos p = (n.peers p).rpos := by
+  have : p = 0 ∨ p = 1 ∨ p = 2 ∨ p = 3 ∨ p = 4 ∨ p = 5 := by omega
+  rcases this with rfl | rfl | rfl | rfl | rfl | rfl <;> rfl
 
 /-- What ReplayLog reads from the disk of a related node = the ghost events, in ghost order. -/
 theorem fullView_rel (c : Codec) (sp : SpecSt) (n : Node) (t now now' : Int) (h : Rel c sp n t) :
@@ -275,7 +273,7 @@ theorem Rel.mono {c : Codec} {sp : SpecSt} {n : Node} {t t' : Int} (h : Rel c sp
 /-- Only endpoint fields changed. -/
 theorem Rel.of_peers {c : Codec} {sp : SpecSt} {n : Node} {t : Int} (h : Rel c sp n t) (n' : Node) (conn' : List Bool)
     (hs : n'.snd = n.snd)
-    (hconn : conn' = [(n'.peers 0).connected, (n'.peers 1).connected, (n'.peers 2).connected])
+    (hconn : conn' = [(n'.peers 0).connected, (n'.peers 1).connected, (n'.peers 2).connected, (n'.peers 3).connected, (n'.peers 4).connected, (n'.peers 5).connected])
     (hd : ∀ i, (n'.peers i).dur = (n.peers i).dur) (hrel : ∀ i, (n'.peers i).related = (n.peers i).related) :
     Rel c { sp with pos := n'.pos, conn := conn' } n' t :=
   { isOpen := by rw [hs]; exact h.isOpen, files := by rw [hs]; exact h.files, cur := by rw [hs]; exact h.cur,
@@ -283,36 +281,36 @@ theorem Rel.of_peers {c : Codec} {sp : SpecSt} {n : Node} {t : Int} (h : Rel c s
     nameLe := by rw [hs]; exact h.nameLe, lastPos := by rw [hs]; exact h.lastPos, lastLe := by rw [hs]; exact h.lastLe,
     incr := h.incr, tsLe := h.tsLe, curLe := by rw [hs]; exact h.curLe, named := h.named, pos := rfl, conn := hconn,
     durs := by simp only [h.durs, hd], dropped := h.dropped,
-    rel0 := by rw [hrel]; exact h.rel0, rel1 := by rw [hrel]; exact h.rel1, rel2 := by rw [hrel]; exact h.rel2 }
+    rel := fun p => by rw [hrel]; exact h.rel p }
 
-theorem three (p : Nat) (hp : p < 3) : p = 0 ∨ p = 1 ∨ p = 2 := by omega
+theorem six (p : Nat) (hp : p < 6) : p = 0 ∨ p = 1 ∨ p = 2 ∨ p = 3 ∨ p = 4 ∨ p = 5 := by omega
 
-theorem step_conn (c : Codec) (limit : Nat) (sp : SpecSt) (n : Node) (t : Int) (p : Nat) (hp : p < 3) (h : Rel c sp n t) :
+theorem step_conn (c : Codec) (limit : Nat) (sp : SpecSt) (n : Node) (t : Int) (p : Nat) (hp : p < 6) (h : Rel c sp n t) :
     ∃ sp', specEnd sp (stepOp c limit n (.conn p)).2 = some sp' ∧ Rel c sp' (stepOp c limit n (.conn p)).1 t := by
   refine ⟨_, rfl, ?_⟩
   simp only [stepOp]
   have := h.of_peers (n.setPeer p (fun q => { q with connected := true, syncing := true }))
     (sp.conn.set p true) rfl
-    (by rw [h.conn]; rcases three p hp with rfl | rfl | rfl <;> simp [Node.setPeer])
+    (by rw [h.conn]; rcases six p hp with rfl | rfl | rfl | rfl | rfl | rfl <;> simp [Node.setPeer])
     (by intro i; simp only [Node.setPeer]; split <;> rfl) (by intro i; simp only [Node.setPeer]; split <;> rfl)
   exact this
 
-theorem step_disc (c : Codec) (limit : Nat) (sp : SpecSt) (n : Node) (t : Int) (p : Nat) (hp : p < 3) (h : Rel c sp n t) :
+theorem step_disc (c : Codec) (limit : Nat) (sp : SpecSt) (n : Node) (t : Int) (p : Nat) (hp : p < 6) (h : Rel c sp n t) :
     ∃ sp', specEnd sp (stepOp c limit n (.disc p)).2 = some sp' ∧ Rel c sp' (stepOp c limit n (.disc p)).1 t := by
   refine ⟨_, rfl, ?_⟩
   simp only [stepOp]
   have := h.of_peers (n.setPeer p (fun q => { q with connected := false }))
     (sp.conn.set p false) rfl
-    (by rw [h.conn]; rcases three p hp with rfl | rfl | rfl <;> simp [Node.setPeer])
+    (by rw [h.conn]; rcases six p hp with rfl | rfl | rfl | rfl | rfl | rfl <;> simp [Node.setPeer])
     (by intro i; simp only [Node.setPeer]; split <;> rfl) (by intro i; simp only [Node.setPeer]; split <;> rfl)
   exact this
 
 theorem conn_same (sp : SpecSt) (n n' : Node) (c : Codec) (t : Int) (h : Rel c sp n t)
     (hc : ∀ i, (n'.peers i).connected = (n.peers i).connected) :
-    sp.conn = [(n'.peers 0).connected, (n'.peers 1).connected, (n'.peers 2).connected] := by
+    sp.conn = [(n'.peers 0).connected, (n'.peers 1).connected, (n'.peers 2).connected, (n'.peers 3).connected, (n'.peers 4).connected, (n'.peers 5).connected] := by
   rw [h.conn]; simp only [hc]
 
-theorem step_ack (c : Codec) (limit : Nat) (sp : SpecSt) (n : Node) (t : Int) (p : Nat) (v : Int) (hp : p < 3) (h : Rel c sp n t) :
+theorem step_ack (c : Codec) (limit : Nat) (sp : SpecSt) (n : Node) (t : Int) (p : Nat) (v : Int) (hp : p < 6) (h : Rel c sp n t) :
     ∃ sp', specEnd sp (stepOp c limit n (.ack p v)).2 = some sp' ∧ Rel c sp' (stepOp c limit n (.ack p v)).1 t := by
   let n' := n.setPeer p (fun q => { q with lpos := setLogPos q.lpos v })
   have hrel := h.of_peers n' sp.conn rfl
@@ -329,7 +327,7 @@ theorem step_ack (c : Codec) (limit : Nat) (sp : SpecSt) (n : Node) (t : Int) (p
   · have : ({ sp with pos := n'.pos, conn := sp.conn } : SpecSt) = { sp with pos := n'.pos } := rfl
     rw [← this]; exact hrel
 
-theorem step_recv (c : Codec) (limit : Nat) (sp : SpecSt) (n : Node) (t : Int) (p : Nat) (ts : Int) (hp : p < 3) (h : Rel c sp n t) :
+theorem step_recv (c : Codec) (limit : Nat) (sp : SpecSt) (n : Node) (t : Int) (p : Nat) (ts : Int) (hp : p < 6) (h : Rel c sp n t) :
     ∃ sp', specEnd sp (stepOp c limit n (.recv p ts)).2 = some sp' ∧ Rel c sp' (stepOp c limit n (.recv p ts)).1 t := by
   let n' := n.setPeer p (fun q => { q with rpos := (recv (n.peers p).rpos (some ts)).2 })
   have hrel := h.of_peers n' sp.conn rfl
@@ -352,7 +350,7 @@ theorem step_recv (c : Codec) (limit : Nat) (sp : SpecSt) (n : Node) (t : Int) (
 theorem Rel.of_touch {c : Codec} {sp : SpecSt} {n : Node} {t : Int} (h : Rel c sp n t) (n' : Node) (t' : Int) (conn' : List Bool)
     (hf : n'.snd.files = n.snd.files) (hcur : n'.snd.current = n.snd.current) (ho : n'.snd.isOpen = true)
     (hl1 : n.snd.lastTs ≤ n'.snd.lastTs) (hl2 : n'.snd.lastTs ≤ t') (htt : t ≤ t')
-    (hconn : conn' = [(n'.peers 0).connected, (n'.peers 1).connected, (n'.peers 2).connected])
+    (hconn : conn' = [(n'.peers 0).connected, (n'.peers 1).connected, (n'.peers 2).connected, (n'.peers 3).connected, (n'.peers 4).connected, (n'.peers 5).connected])
     (hd : ∀ i, (n'.peers i).dur = (n.peers i).dur) (hrel : ∀ i, (n'.peers i).related = (n.peers i).related) :
     Rel c { sp with pos := n'.pos, conn := conn' } n' t' :=
   { isOpen := ho, files := by rw [hf]; exact h.files, cur := by rw [hcur]; exact h.cur,
@@ -362,23 +360,23 @@ theorem Rel.of_touch {c : Codec} {sp : SpecSt} {n : Node} {t : Int} (h : Rel c s
     incr := h.incr, tsLe := fun g hg => by have := h.tsLe g hg; omega,
     curLe := fun g hg => by have := h.curLe g hg; omega, named := h.named, pos := rfl, conn := hconn,
     durs := by simp only [h.durs, hd], dropped := h.dropped,
-    rel0 := by rw [hrel]; exact h.rel0, rel1 := by rw [hrel]; exact h.rel1, rel2 := by rw [hrel]; exact h.rel2 }
+    rel := fun p => by rw [hrel]; exact h.rel p }
 
-theorem step_crashStart (c : Codec) (limit : Nat) (sp : SpecSt) (n : Node) (t now : Int) (ht : t < now) (h : Rel c sp n t) :
-    ∃ sp', specEnd sp (stepOp c limit n (.crashStart now)).2 = some sp' ∧ Rel c sp' (stepOp c limit n (.crashStart now)).1 now := by
+theorem step_crashStart (c : Codec) (limit : Nat) (sp : SpecSt) (n : Node) (t now : Int) (sr tr : Bool) (ht : t < now) (h : Rel c sp n t) :
+    ∃ sp', specEnd sp (stepOp c limit n (.crashStart now sr tr)).2 = some sp' ∧ Rel c sp' (stepOp c limit n (.crashStart now sr tr)).1 now := by
   have hlen : (match n.snd.current with | some b => b.length | none => 0) = sp.curSize := by rw [h.cur, h.curSize]
-  let n' : Node := { n with snd := start now (crash sp.curSize n.snd),
+  let n' : Node := { n with snd := start now (crash sp.curSize n.snd), satRev := sr, topRev := tr,
                             peers := fun i => { n.peers i with connected := false, syncing := false } }
   have hcur : n'.snd.current = n.snd.current := by
     simp only [n', start, openLog, crash, h.cur, h.curSize, Option.map_some, List.take_length]
-  have hrel := h.of_touch n' now [false, false, false] (by simp [n', start, openLog, crash]) hcur
+  have hrel := h.of_touch n' now [false, false, false, false, false, false] (by simp [n', start, openLog, crash]) hcur
     (by simp [n', start, openLog]) (by have := h.lastLe; simp [n', start, openLog]; omega) (by simp [n', start, openLog])
     (by omega) (by simp [n']) (by intro i; rfl) (by intro i; rfl)
-  have hn : (stepOp c limit n (.crashStart now)).1 = n' := by simp only [stepOp, h.cur, n', h.curSize]
-  have hs : (stepOp c limit n (.crashStart now)).2 = [⟨.damage ⟨none, sp.curSize, false⟩, n'.pos⟩, ⟨.restart, n'.pos⟩] := by
+  have hn : (stepOp c limit n (.crashStart now sr tr)).1 = n' := by simp only [stepOp, h.cur, n', h.curSize]
+  have hs : (stepOp c limit n (.crashStart now sr tr)).2 = [⟨.damage ⟨none, sp.curSize, false⟩, n'.pos⟩, ⟨.restart, n'.pos⟩] := by
     simp only [stepOp, h.cur, n', h.curSize]
   rw [hn, hs]
-  refine ⟨{ sp with pos := n'.pos, conn := [false, false, false] }, ?_, hrel⟩
+  refine ⟨{ sp with pos := n'.pos, conn := [false, false, false, false, false, false] }, ?_, hrel⟩
   simp [specEnd, specStep, applyDamage]
 
 theorem outObs_no_x (o : List Out) : (outObs o).any (fun x => x == OutObs.x) = false := by
@@ -396,9 +394,9 @@ theorem outMsgs_outObs (o : List Out) : outMsgs (outObs o) = (msgsOf o).map (fun
     | msg e => simp only [outObs, List.map_cons, outMsgs, msgsOf] at ih ⊢; rw [ih]
     | setPos v => simp only [outObs, List.map_cons, outMsgs, msgsOf] at ih ⊢; rw [ih]
 
-theorem durs_getD (c : Codec) (sp : SpecSt) (n : Node) (t : Int) (h : Rel c sp n t) (p : Nat) (hp : p < 3) :
+theorem durs_getD (c : Codec) (sp : SpecSt) (n : Node) (t : Int) (h : Rel c sp n t) (p : Nat) (hp : p < 6) :
     sp.durs.getD p 0 = (n.peers p).dur := by
-  rw [h.durs]; rcases three p hp with rfl | rfl | rfl <;> rfl
+  rw [h.durs]; rcases six p hp with rfl | rfl | rfl | rfl | rfl | rfl <;> rfl
 
 theorem wanted_eq (p : Nat) (lp : Int) (e : Entry) :
     wanted (fun o => may false p (some o)) lp e = (decide (e.ts > lp) && may false p e.sec) := by
@@ -416,7 +414,7 @@ theorem wanted_eq (p : Nat) (lp : Int) (e : Entry) :
     · have : lp < e.ts := by omega
       simp [hle, this]
 
-theorem step_replay (c : Codec) (limit : Nat) (sp : SpecSt) (n : Node) (t now : Int) (p : Nat) (hp : p < 3) (ht : t < now)
+theorem step_replay (c : Codec) (limit : Nat) (sp : SpecSt) (n : Node) (t now : Int) (p : Nat) (hp : p < 6) (ht : t < now)
     (h : Rel c sp n t) :
     ∃ sp', specEnd sp (stepOp c limit n (.replay now p)).2 = some sp' ∧ Rel c sp' (stepOp c limit n (.replay now p)).1 now := by
   let pr := n.peers p
@@ -555,7 +553,7 @@ theorem rel_rot (c : Codec) (sp : SpecSt) (n : Node) (now : Int) (h : Rel c sp n
         lastPos := (by rw [hrot]; simp; omega), lastLe := (by rw [hrot]; simp),
         incr := (by rw [hga]; exact h.incr), tsLe := (by rw [hga]; exact h.tsLe),
         curLe := (by intro g hg; cases hg), named := hnamed,
-        pos := h.pos, conn := h.conn, durs := h.durs, dropped := h.dropped, rel0 := h.rel0, rel1 := h.rel1, rel2 := h.rel2 }
+        pos := h.pos, conn := h.conn, durs := h.durs, dropped := h.dropped, rel := h.rel }
 
 theorem specStep_rotate (sp : SpecSt) (nf : Option Int) (q : List Int) (h : sp.pos = q) :
     specStep sp ⟨.rotate nf, q⟩ = (none, ghostRot nf sp) := by
@@ -615,13 +613,13 @@ theorem step_timer (c : Codec) (limit : Nat) (sp : SpecSt) (n : Node) (t now : I
       tsLe := (fun g hg => by have := h.tsLe g (hga.subset hg); omega),
       curLe := h.curLe,
       named := (fun f hf => h.named f (hsub.subset hf)),
-      pos := h.pos, conn := h.conn, durs := h.durs, dropped := h.dropped, rel0 := h.rel0, rel1 := h.rel1, rel2 := h.rel2 }
+      pos := h.pos, conn := h.conn, durs := h.durs, dropped := h.dropped, rel := h.rel }
   refine ⟨sp', ?_, hrel⟩
   show specEnd sp [⟨.timer now deleted _, n.pos⟩] = some sp'
   rw [← h.pos]
   simp only [specEnd, specStep]
   -- the clause: no deleted file holds a record a related endpoint still needs
-  have hneed : ((sp.files.filter (fun f => deleted.contains f.name)).any (fun f => f.es.any (fun g => g.intact && [0, 1, 2].any (fun p =>
+  have hneed : ((sp.files.filter (fun f => deleted.contains f.name)).any (fun f => f.es.any (fun g => g.intact && allPeers.any (fun p =>
       related p && decide (g.e.ts > lpos sp.pos p) &&
         !(decide (sp.durs.getD p 0 ≥ 0) && decide (g.e.ts < now - sp.durs.getD p 0)))))) = false := by
     rw [List.any_eq_false]
@@ -635,18 +633,15 @@ theorem step_timer (c : Codec) (limit : Nat) (sp : SpecSt) (n : Node) (t now : I
     have hnm := h.named f hf'.1 g hg
     simp only [Bool.and_eq_true, List.any_eq_true] at hbad
     obtain ⟨_, p, hp, hpb⟩ := hbad
-    simp only [List.mem_cons, List.mem_nil_iff, or_false] at hp
-    have hp3 : p < 3 := by rcases hp with rfl | rfl | rfl <;> omega
-    have hpl : n.peers p ∈ n.peerList := by rcases hp with rfl | rfl | rfl <;> simp [Node.peerList]
+    simp only [allPeers, List.mem_cons, List.mem_nil_iff, or_false] at hp
+    have hp3 : p < 6 := by rcases hp with rfl | rfl | rfl | rfl | rfl | rfl <;> omega
+    have hpl : n.peers p ∈ n.peerList := by rcases hp with rfl | rfl | rfl | rfl | rfl | rfl <;> simp [Node.peerList]
     have hnf : needsFile now f.name (n.peers p) = false := by simpa using hno (n.peers p) hpl
     have hd := durs_getD c sp n t h p hp3
     have hl : lpos sp.pos p = (n.peers p).lpos := by rw [h.pos, lpos_pos n p hp3]
     rw [hd, hl] at hpb
     have hrelp : related p = true → (n.peers p).related = true := by
-      rcases hp with rfl | rfl | rfl
-      · intro _; exact h.rel0
-      · intro _; exact h.rel1
-      · intro hh; simp [related] at hh
+      intro hh; rw [h.rel p]; exact hh
     simp only [Bool.and_eq_true, decide_eq_true_eq, Bool.not_eq_true', Bool.and_eq_false_iff, decide_eq_false_iff_not] at hpb
     have hr := hrelp hpb.1.1
     simp only [needsFile, hr, Bool.true_and, Bool.and_eq_false_iff, Bool.not_eq_false', Bool.and_eq_true,
@@ -662,26 +657,102 @@ theorem step_timer (c : Codec) (limit : Nat) (sp : SpecSt) (n : Node) (t now : I
 
 /-! ## relaying an event -/
 
-theorem targets_mem (sec : Option Nat) (p : Nat) (h : p ∈ targets sec) : p = 0 ∨ p = 1 := by
-  simp only [targets] at h
-  split at h <;> simp at h <;> omega
-
-theorem conn_getD (c : Codec) (sp : SpecSt) (n : Node) (t : Int) (h : Rel c sp n t) (p : Nat) (hp : p < 3) :
+theorem conn_getD (c : Codec) (sp : SpecSt) (n : Node) (t : Int) (h : Rel c sp n t) (p : Nat) (hp : p < 6) :
     sp.conn.getD p false = (n.peers p).connected := by
-  rw [h.conn]; rcases three p hp with rfl | rfl | rfl <;> rfl
+  rw [h.conn]; rcases six p hp with rfl | rfl | rfl | rfl | rfl | rfl <;> rfl
+
+theorem targetZones_lt (sec : Option Nat) : ∀ z ∈ targetZones sec, z.2 ≠ [] ∧ ∀ p ∈ z.2, p < 6 := by
+  intro z hz
+  simp only [targetZones] at hz
+  split at hz <;> simp at hz <;> rcases hz with rfl | rfl | rfl <;> simp <;> omega
+
+theorem orient_mem (a b : Bool) (l : List Nat) (p : Nat) : p ∈ orient a b l ↔ p ∈ l := by
+  simp only [orient]
+  split
+  · rename_i h; simp only [Bool.and_eq_true, beq_iff_eq] at h; rw [h.1]; simp; omega
+  · split
+    · rename_i h; simp only [Bool.and_eq_true, beq_iff_eq] at h; rw [h.1]; simp; omega
+    · rfl
+
+theorem orient_ne_nil (a b : Bool) (l : List Nat) (h : l ≠ []) : orient a b l ≠ [] := by
+  simp only [orient]
+  split
+  · simp
+  · split
+    · simp
+    · exact h
+
+/-- A zone none of whose endpoints is connected: the log is needed and not done. -/
+theorem relayZone_all_disc (peers : Nat → Peer) (master : Option Nat) (loc : Bool) : ∀ (eps : List Nat) (a : ZoneAcc),
+    (∀ i ∈ eps, (peers i).connected = false) → a.logDone = false → (eps ≠ [] ∨ a.logNeeded = true) →
+    (eps.foldl (relayEndpoint peers loc master) a).logNeeded = true ∧
+    (eps.foldl (relayEndpoint peers loc master) a).logDone = false := by
+  intro eps
+  induction eps with
+  | nil => intro a _ hd hn; simp at hn; exact ⟨hn, hd⟩
+  | cons i r ih =>
+    intro a hc hd _
+    simp only [List.foldl_cons]
+    apply ih
+    · intro j hj; exact hc j (by simp [hj])
+    · simp only [relayEndpoint, hc i (by simp), Bool.not_false, if_true]; cases loc <;> simp [hd]
+    · right; simp only [relayEndpoint, hc i (by simp), Bool.not_false, if_true]; cases loc <;> simp
 
 theorem must_log (c : Codec) (sp : SpecSt) (n : Node) (t : Int) (h : Rel c sp n t) (sec : Option Nat)
-    (hm : (targets sec).any (fun p => !(sp.conn.getD p false)) = true) :
-    (relay n.peers n.master (zonesOf sec)).needLog = true := by
-  rw [List.any_eq_true] at hm
-  obtain ⟨p, hp, hc⟩ := hm
-  have hp3 : p < 3 := by rcases targets_mem sec p hp with rfl | rfl <;> omega
-  rw [conn_getD c sp n t h p hp3] at hc
-  have hc' : (n.peers p).connected = false := by simpa using hc
+    (hm : mustLog (fun p => sp.conn.getD p false) sec = true) :
+    (relay n.peers n.master (zonesOf n.satRev n.topRev sec)).needLog = true := by
+  simp only [mustLog, List.any_eq_true, List.all_eq_true] at hm
+  obtain ⟨z, hz, hall⟩ := hm
+  have hzl := targetZones_lt sec z hz
   simp only [relay, List.any_map, List.any_eq_true]
-  refine ⟨(p == 0, [p]), by simp only [zonesOf, List.mem_map]; exact ⟨p, hp, rfl⟩, ?_⟩
-  simp only [Function.comp, relayZone, List.foldl_cons, List.foldl_nil, relayEndpoint, hc', Bool.not_false, if_true]
-  cases (p == 0) <;> simp
+  refine ⟨(z.1, orient n.satRev n.topRev z.2), by simp only [zonesOf, List.mem_map]; exact ⟨z, hz, rfl⟩, ?_⟩
+  have := relayZone_all_disc n.peers n.master z.1 (orient n.satRev n.topRev z.2) {}
+    (by
+      intro i hi
+      have hi' := (orient_mem _ _ _ _).mp hi
+      have := hall i hi'
+      rw [conn_getD c sp n t h i (hzl.2 i hi')] at this
+      simpa using this)
+    rfl (Or.inl (orient_ne_nil _ _ _ hzl.1))
+  simp only [Function.comp, relayZone, this.1, this.2, Bool.not_false, Bool.and_self]
+
+/-- RelayMessageOne only ever skips (and advances the position of) endpoints that are connected. -/
+theorem relayZone_skipped_connected (peers : Nat → Peer) (master : Option Nat) (loc : Bool) : ∀ (eps : List Nat) (a : ZoneAcc),
+    (∀ i ∈ a.skipped, (peers i).connected = true) →
+    ∀ i ∈ (eps.foldl (relayEndpoint peers loc master) a).skipped, (peers i).connected = true := by
+  intro eps
+  induction eps with
+  | nil => intro a h; exact h
+  | cons j r ih =>
+    intro a h
+    simp only [List.foldl_cons]
+    apply ih
+    intro i hi
+    simp only [relayEndpoint] at hi
+    cases hc : (peers j).connected with
+    | false =>
+      simp only [hc, Bool.not_false, if_true] at hi
+      split at hi <;> exact h i hi
+    | true =>
+      simp only [hc, Bool.not_true, Bool.false_eq_true, if_false] at hi
+      split at hi
+      · simp only [List.mem_append, List.mem_singleton] at hi
+        rcases hi with hi | rfl
+        · exact h i hi
+        · exact hc
+      · split at hi
+        · simp only [List.mem_append, List.mem_singleton] at hi
+          rcases hi with hi | rfl
+          · exact h i hi
+          · exact hc
+        · exact h i hi
+
+theorem relay_skipped_connected (peers : Nat → Peer) (master : Option Nat) (zones : List (Bool × List Nat)) :
+    ∀ i ∈ (relay peers master zones).skipped, (peers i).connected = true := by
+  intro i hi
+  simp only [relay, List.mem_flatMap, List.mem_map] at hi
+  obtain ⟨a, ⟨z, _, rfl⟩, hia⟩ := hi
+  exact relayZone_skipped_connected peers master z.1 z.2 {} (by intro j hj; simp at hj) i hia
 
 theorem newNames_congr_old (s₁ s₂ s' : Sender) (h : s₁.files = s₂.files) : newNames s₁ s' = newNames s₂ s' := by
   simp only [newNames, h]
@@ -695,10 +766,10 @@ theorem ghostRot_match (nf : Option Int) (sp : SpecSt) :
 theorem step_relay (c : Codec) (limit : Nat) (sp : SpecSt) (n : Node) (t now : Int) (id : Nat) (sec : Option Nat) (ht : t < now)
     (h : Rel c sp n t) :
     ∃ sp', specEnd sp (stepOp c limit n (.relay now id sec)).2 = some sp' ∧ Rel c sp' (stepOp c limit n (.relay now id sec)).1 now := by
-  let r := relay n.peers n.master (zonesOf sec)
+  let r := relay n.peers n.master (zonesOf n.satRev n.topRev sec)
   let n1 : Node := { n with peers := fun i => if r.skipped.contains i then { n.peers i with lpos := now } else n.peers i }
   let e : Entry := ⟨now, id, sec⟩
-  have hconn1 : sp.conn = [(n1.peers 0).connected, (n1.peers 1).connected, (n1.peers 2).connected] :=
+  have hconn1 : sp.conn = [(n1.peers 0).connected, (n1.peers 1).connected, (n1.peers 2).connected, (n1.peers 3).connected, (n1.peers 4).connected, (n1.peers 5).connected] :=
     conn_same sp n n1 c t h (by intro i; simp only [n1]; split <;> rfl)
   have hdur1 : ∀ i, (n1.peers i).dur = (n.peers i).dur := by intro i; simp only [n1]; split <;> rfl
   have hrel1 : ∀ i, (n1.peers i).related = (n.peers i).related := by intro i; simp only [n1]; split <;> rfl
@@ -707,17 +778,17 @@ theorem step_relay (c : Codec) (limit : Nat) (sp : SpecSt) (n : Node) (t now : I
   cases hneed : r.needLog with
   | false =>
     -- nobody is missing: nothing is logged
-    have hmust : (targets sec).any (fun p => !(sp.conn.getD p false)) = false := by
-      cases hm : (targets sec).any (fun p => !(sp.conn.getD p false)) with
+    have hmust : mustLog (fun p => sp.conn.getD p false) sec = false := by
+      cases hm : mustLog (fun p => sp.conn.getD p false) sec with
       | false => rfl
-      | true => have := must_log c sp n t h sec hm; rw [show (relay n.peers n.master (zonesOf sec)).needLog = r.needLog from rfl, hneed] at this; cases this
+      | true => have := must_log c sp n t h sec hm; rw [show (relay n.peers n.master (zonesOf n.satRev n.topRev sec)).needLog = r.needLog from rfl, hneed] at this; cases this
     have hn : (stepOp c limit n (.relay now id sec)).1 = n1 := by
       simp only [stepOp]
-      rw [show (relay n.peers n.master (zonesOf sec)).needLog = false from hneed]
+      rw [show (relay n.peers n.master (zonesOf n.satRev n.topRev sec)).needLog = false from hneed]
       rfl
     have hs : (stepOp c limit n (.relay now id sec)).2 = [⟨.relay now id sec none none, n1.pos⟩] := by
       simp only [stepOp]
-      rw [show (relay n.peers n.master (zonesOf sec)).needLog = false from hneed]
+      rw [show (relay n.peers n.master (zonesOf n.satRev n.topRev sec)).needLog = false from hneed]
       simp only [Bool.false_and, Bool.false_eq_true, if_false, newNames_same n.snd n.snd rfl, List.head?_nil]
       rfl
     rw [hn, hs]
@@ -766,19 +837,18 @@ theorem step_relay (c : Codec) (limit : Nat) (sp : SpecSt) (n : Node) (t now : I
           · simp only [nA, s1, g, e]; omega),
         named := h.named, pos := rfl, conn := hconn1,
         durs := (by simp only [spA, h.durs, nA, hdur1]), dropped := h.dropped,
-        rel0 := (by simp only [nA]; rw [hrel1]; exact h.rel0), rel1 := (by simp only [nA]; rw [hrel1]; exact h.rel1),
-        rel2 := (by simp only [nA]; rw [hrel1]; exact h.rel2) }
+        rel := (fun p => by simp only [nA]; rw [hrel1]; exact h.rel p) }
     let snd2 := if s1.count > limit then rot now s1 else s1
     have hn : (stepOp c limit n (.relay now id sec)).1 = { n1 with snd := snd2 } := by
       simp only [stepOp]
-      rw [show (relay n.peers n.master (zonesOf sec)).needLog = true from hneed]
+      rw [show (relay n.peers n.master (zonesOf n.satRev n.topRev sec)).needLog = true from hneed]
       simp only [if_true]
       show ({ n1 with snd := persist limit now (c.enc e) now n.snd } : Node) = _
       rw [hpersist]
     have hs : (stepOp c limit n (.relay now id sec)).2 =
         [⟨.relay now id sec (some len) (newNames n.snd snd2).head?, n1.pos⟩] := by
       simp only [stepOp]
-      rw [show (relay n.peers n.master (zonesOf sec)).needLog = true from hneed]
+      rw [show (relay n.peers n.master (zonesOf n.satRev n.topRev sec)).needLog = true from hneed]
       simp only [if_true, h.isOpen, h.cur, Option.isSome_some, Bool.and_self]
       show [(⟨.relay now id sec (some len) (newNames n.snd (persist limit now (c.enc e) now n.snd)).head?, n1.pos⟩ : Step)] = _
       rw [hpersist]
@@ -796,3 +866,118 @@ theorem step_relay (c : Codec) (limit : Nat) (sp : SpecSt) (n : Node) (t now : I
     · have hsnd : snd2 = s1 := by simp only [snd2, hc, if_false]
       rw [hsnd, newNames_same n.snd s1 rfl]
       exact hrelA
+
+/-! ## clause position_advance_justified on the model's trace -/
+
+def advanceEnd : SpecSt → List Step → Bool
+  | _, [] => true
+  | sp, st :: r => advanceOk sp st && advanceEnd (specStep sp st).2 r
+
+theorem advanceTrace_append : ∀ (a : List Step) (sp sp' : SpecSt) (b : List Step) (i : Nat), specEnd sp a = some sp' →
+    advanceEnd sp a = true → advanceTrace sp (a ++ b) i = advanceTrace sp' b (i + a.length) := by
+  intro a
+  induction a with
+  | nil => intro sp sp' b i h _; simp only [specEnd, Option.some.injEq] at h; subst h; simp
+  | cons st r ih =>
+    intro sp sp' b i h h2
+    simp only [specEnd] at h
+    simp only [advanceEnd, Bool.and_eq_true] at h2
+    simp only [List.cons_append, advanceTrace, h2.1, if_true]
+    rcases hq : specStep sp st with ⟨bad, sp1⟩
+    rw [hq] at h h2
+    cases bad with
+    | some cl => simp at h
+    | none =>
+      simp only at h h2 ⊢
+      rw [ih sp1 sp' b (i + 1) h h2.2]
+      simp only [List.length_cons]
+      congr 1; omega
+
+theorem advanceOk_of (sp : SpecSt) (st : Step)
+    (h : ∀ p, p < 6 → lpos st.pos p ≤ lpos sp.pos p ∨
+      (match st.ev with
+        | .ack q v => (q == p && lpos st.pos p == v) = true
+        | .relay now _ _ _ _ => (sp.conn.getD p false && lpos st.pos p == now) = true
+        | _ => False)) : advanceOk sp st = true := by
+  simp only [advanceOk, allPeers, List.all_eq_true]
+  intro p hp
+  have hp6 : p < 6 := by simp only [List.mem_cons, List.mem_nil_iff, or_false] at hp; omega
+  rcases h p hp6 with hle | hj
+  · simp [hle]
+  · by_cases hle : lpos st.pos p ≤ lpos sp.pos p
+    · simp [hle]
+    · simp only [hle, if_false]
+      cases hev : st.ev <;> simp only [hev] at hj ⊢ <;> first | exact hj | exact hj.elim
+
+theorem advanceOk_same (sp : SpecSt) (st : Step) (h : ∀ p, p < 6 → lpos st.pos p = lpos sp.pos p) : advanceOk sp st = true :=
+  advanceOk_of sp st (fun p hp => Or.inl (by rw [h p hp]; exact Int.le_refl _))
+
+theorem lpos_same (c : Codec) (sp : SpecSt) (n n' : Node) (t : Int) (h : Rel c sp n t)
+    (hl : ∀ p, (n'.peers p).lpos = (n.peers p).lpos) : ∀ p, p < 6 → lpos n'.pos p = lpos sp.pos p := by
+  intro p hp
+  rw [lpos_pos n' p hp, h.pos, lpos_pos n p hp, hl p]
+
+theorem applyDamage_pos (d : Damage) (sp : SpecSt) : (applyDamage d sp).pos = sp.pos := by
+  simp only [applyDamage]
+  split
+  · split <;> rfl
+  · rfl
+
+theorem step_advance (c : Codec) (limit : Nat) (sp : SpecSt) (n : Node) (t : Int) (op : Op) (h : Rel c sp n t)
+    (hp : op.peerOk = true) : advanceEnd sp (stepOp c limit n op).2 = true := by
+  cases op with
+  | relay now id sec =>
+    simp only [stepOp, advanceEnd, Bool.and_true]
+    apply advanceOk_of
+    intro p hp6
+    simp only
+    let r := relay n.peers n.master (zonesOf n.satRev n.topRev sec)
+    by_cases hs : r.skipped.contains p = true
+    · right
+      have hc := relay_skipped_connected n.peers n.master _ p (List.mem_of_elem_eq_true hs)
+      rw [conn_getD c sp n t h p hp6, hc, lpos_pos _ p hp6]
+      simp only [Bool.true_and, beq_iff_eq]
+      show (if r.skipped.contains p = true then { n.peers p with lpos := now } else n.peers p).lpos = now
+      rw [if_pos hs]
+    · left
+      rw [lpos_pos _ p hp6, h.pos, lpos_pos n p hp6]
+      show (if r.skipped.contains p = true then { n.peers p with lpos := now } else n.peers p).lpos ≤ _
+      rw [if_neg hs]; exact Int.le_refl _
+  | conn q =>
+    simp only [stepOp, advanceEnd, Bool.and_true]
+    exact advanceOk_same _ _ (lpos_same c sp n _ t h (by intro p; simp only [Node.setPeer]; split <;> rfl))
+  | disc q =>
+    simp only [stepOp, advanceEnd, Bool.and_true]
+    exact advanceOk_same _ _ (lpos_same c sp n _ t h (by intro p; simp only [Node.setPeer]; split <;> rfl))
+  | replay now q =>
+    simp only [stepOp, advanceEnd, Bool.and_true]
+    exact advanceOk_same _ _ (lpos_same c sp n _ t h (by intro p; simp only [Node.setPeer]; split <;> rfl))
+  | rotate now =>
+    simp only [stepOp, advanceEnd, Bool.and_true]
+    exact advanceOk_same _ _ (lpos_same c sp n _ t h (fun _ => rfl))
+  | timer now =>
+    simp only [stepOp, advanceEnd, Bool.and_true]
+    exact advanceOk_same _ _ (lpos_same c sp n _ t h (fun _ => rfl))
+  | recv q ts =>
+    simp only [stepOp, advanceEnd, Bool.and_true]
+    exact advanceOk_same _ _ (lpos_same c sp n _ t h (by intro p; simp only [Node.setPeer]; split <;> rfl))
+  | ack q v =>
+    simp only [stepOp, advanceEnd, Bool.and_true]
+    apply advanceOk_of
+    intro p hp6
+    simp only
+    rw [lpos_pos _ p hp6, h.pos, lpos_pos n p hp6]
+    simp only [Node.setPeer]
+    by_cases hq : p = q
+    · subst hq
+      simp only [if_true, setLogPos]
+      by_cases hv : v > (n.peers p).lpos
+      · right; simp [hv]
+      · left; simp [hv]
+    · left; simp [hq]
+  | crashStart now sr tr =>
+    simp only [stepOp, advanceEnd, Bool.and_true, Bool.and_eq_true]
+    refine ⟨advanceOk_same _ _ (lpos_same c sp n _ t h (fun _ => rfl)), ?_⟩
+    apply advanceOk_same
+    intro p _
+    simp only [specStep, applyDamage_pos]
